@@ -1,7 +1,8 @@
 PROPS["C17"] = {
         "families": {"crash": {"quick": 60, "thorough": 2000}},
-        "claim": "Theorems (Lean kernel) over the byte-exact file-store model with crash semantics and the two-table SQL model (see notes/store.md); "
-                 "the full statement is false of the code (three crash windows, proved as witnesses) and is kept as C17_full.",
+        "claim": "Theorems (Lean kernel) over the byte-exact file-store model with crash semantics and the two-table SQL model: C17_partial — for every history, operation, crash point, cut and mode "
+                 "except a process crash inside the in-place rewrite of a 19-byte counter file, a fresh store recovers a view satisfying the whole conclusion (completed saves intact, counters before-or-after, "
+                 "used => retrievable); C17_synced_between_ops; C17_sql_atomic; the full statement C17_full is refuted by C17_full_false (torn counter, known finding).",
         "note": "Lean kernel + propext/Classical.choice/Quot.sound; crash semantics are the property's own file-system model (ordered writes, a cut write keeps a prefix, "
                 "sync is durable, directory operations durable at once); every crash image of the generated histories is built from the real store's writes "
                 "(hook in store/file, tag verif), compared byte for byte with the model's image, and a fresh real store is opened on it; real kernels may be worse",
